@@ -540,7 +540,9 @@ class SerializationSchemaBuilder(
             for field in fields
             if not field.is_aggregate
             for required in [
+                # TypedDict keys have no default to exclude
                 field.required
+                and not field.skippable(False, settings.serialization.exclude_none)
                 if is_typed_dict(get_origin_or_type(tp))
                 else not field.skippable(
                     settings.serialization.exclude_defaults,
